@@ -183,4 +183,5 @@ def _write_struct(representation_code: RepresentationCode, value: Any) -> bytes:
     return representation_code.convert(value)  # if no converter was found, use the one built in the enum
 
 
-_write_struct_cached = lru_cache(maxsize=65536)(_write_struct)
+# typed: 1, 1.0 and True are equal but are not encoded alike (e.g. as text)
+_write_struct_cached = lru_cache(maxsize=65536, typed=True)(_write_struct)
